@@ -401,6 +401,69 @@ def n3_break_value(toks, counts):
     return toks
 
 
+def _postfix_start(toks, q):
+    """start index of the postfix-expression chain that ends just before toks[q]"""
+    j = q - 1
+    while j >= 0:
+        t = toks[j]
+        if t.kind == "punct" and t.text in (")", "]"):
+            depth = 0
+            k = j
+            while k >= 0:
+                if toks[k].kind == "punct" and toks[k].text in CLOSE:
+                    depth += 1
+                elif toks[k].kind == "punct" and toks[k].text in OPEN:
+                    depth -= 1
+                    if depth == 0:
+                        break
+                k -= 1
+            j = k - 1
+            # a call/index group must be preceded by the callee (ident), `.`-chain or another group
+            if j >= 0 and (toks[j].kind in ("id",) or is_p(toks[j], ")") or is_p(toks[j], "]") or is_p(toks[j], "?")):
+                continue
+            return j + 1
+        if is_p(t, "?"):
+            j -= 1
+            continue
+        if t.kind in ("id", "num", "str", "char"):
+            j -= 1
+            if j >= 0 and is_p(toks[j], "."):
+                j -= 1
+                continue
+            if j >= 1 and is_p(toks[j], ":") and is_p(toks[j - 1], ":"):
+                j -= 2
+                continue
+            return j + 1
+        return j + 1
+    return 0
+
+
+def n11_try(toks, which, counts):
+    """N11: `E?` -> `match E { Ok(v) => v, Err(e) => return Err(From::from(e)) }` for the listed
+    ordinals (1-based, in source order) of postfix `?` (Rust Reference: the `?` operator on Result)."""
+    if not which:
+        return toks
+    seq = 0
+    i = 0
+    out = list(toks)
+    while i < len(out):
+        t = out[i]
+        if is_p(t, "?") and i > 0 and (out[i - 1].kind in ("id",) or is_p(out[i - 1], ")") or is_p(out[i - 1], "]")):
+            seq += 1
+            if seq in which or "all" in which:
+                st = _postfix_start(out, i)
+                operand = out[st:i]
+                lead = operand[0].trivia
+                operand[0] = operand[0].clone(trivia=" ")
+                new = frag("match", lead) + operand + frag("{ Ok(v__) => v__, Err(e__) => return Err(From::from(e__)) }")
+                out = out[:st] + new + out[i + 1:]
+                counts["N11"] = counts.get("N11", 0) + 1
+                i = st + len(new)
+                continue
+        i += 1
+    return out
+
+
 def drop_tokens(toks, what, counts):
     """drop `async` qualifiers and `.await` postfixes (C02 async text identity)"""
     out = []
@@ -460,6 +523,11 @@ def apply_all(toks, repo, opts, notes):
     toks = n1_for(toks, counts)
     toks = n4_while_let(toks, counts)
     toks = n3_break_value(toks, counts)
+    if opts.get("n11"):
+        which = set()
+        for x in str(opts["n11"]).split(","):
+            which.add("all" if x == "all" else int(x))
+        toks = n11_try(toks, which, counts)
     for (frm, to, mode) in opts.get("rewrites", []):
         toks = rewrite(toks, frm, to, counts, mode)
     return toks, counts
